@@ -190,9 +190,69 @@ def canon(ctx, t):
     return ctx.canon_cache[i][0]
 
 
+_P = (1 << 61) - 1      # Mersenne prime for fingerprints
+
+
+def fingerprint(ctx, t):
+    """value of an arithmetic term at a fixed pseudo-random point, modulo a large prime (atoms hashed by their
+    text).  Different fingerprints => different rational functions; equal ones are confirmed symbolically."""
+    if not hasattr(ctx, 'fp_cache'):
+        ctx.fp_cache = {}
+    i = t.get_id()
+    if i in ctx.fp_cache:
+        return ctx.fp_cache[i]
+    r = _fp(ctx, t)
+    ctx.fp_cache[i] = r
+    return r
+
+
+def _fp(ctx, t):
+    import hashlib
+    if z3.is_int_value(t):
+        return t.as_long() % _P
+    if z3.is_rational_value(t):
+        d = t.denominator_as_long() % _P
+        if d == 0:
+            return None
+        return (t.numerator_as_long() % _P) * pow(d, _P - 2, _P) % _P
+    k = t.decl().kind()
+    if k in (z3.Z3_OP_ADD, z3.Z3_OP_MUL, z3.Z3_OP_SUB, z3.Z3_OP_UMINUS, z3.Z3_OP_DIV, z3.Z3_OP_TO_REAL):
+        cs = [fingerprint(ctx, c) for c in t.children()]
+        if any(c is None for c in cs):
+            return None
+        if k == z3.Z3_OP_ADD:
+            return sum(cs) % _P
+        if k == z3.Z3_OP_MUL:
+            r = 1
+            for c in cs:
+                r = r * c % _P
+            return r
+        if k == z3.Z3_OP_SUB:
+            r = cs[0]
+            for c in cs[1:]:
+                r = (r - c) % _P
+            return r
+        if k == z3.Z3_OP_UMINUS:
+            return (-cs[0]) % _P
+        if k == z3.Z3_OP_TO_REAL:
+            return cs[0]
+        if cs[1] == 0:
+            return None
+        return cs[0] * pow(cs[1], _P - 2, _P) % _P
+    h = hashlib.blake2b(t.sexpr().encode(), digest_size=8).digest()
+    return int.from_bytes(h, 'big') % _P
+
+
 def same_real(ctx, e1, t1, e2, t2):
     if t1.eq(t2):
         return True
+    f1, f2 = fingerprint(ctx, t1), fingerprint(ctx, t2)
+    if f1 is not None and f2 is not None and f1 != f2:
+        return False
+    if e1 is None:
+        e1 = canon(ctx, t1)
+    if e2 is None:
+        e2 = canon(ctx, t2)
     if e1 is None or e2 is None:
         return False
     import sympy
@@ -207,7 +267,7 @@ def uf_apply(ctx, name, *args):
     if ctx.concrete_math and all(_c(a) for a in args):
         return _native(name, args)
     zs = [zreal(a) for a in args]
-    cs = [canon(ctx, z) for z in zs]
+    cs = [None for z in zs]
     if not hasattr(ctx, 'app_list'):
         ctx.app_list = {}
     for (zs2, cs2, r2) in ctx.app_list.get(name, []):
